@@ -30,7 +30,20 @@ type scenario struct {
 	Nil    [][3]bool         // Nil[i][k]: callback k (0 prep, 1 start, 2 stop) of module i is nil
 	Dur    [][3]int          // run time of callback k of module i in units of durUnit
 	Fail   map[string]string // "<m>.<k>.<run>" -> failure mode: "p" (panics) or an error-value class of errDict; run counts invocations from 0
-	Ops    []string          // S start, M manage, X shutdown, E<i> enable, D<i> disable, R late Register
+	//                          "G.p.<i>" / "G.c.<i>" -> error-value class returned by global prep function i / command-line operation i
+	Ops []string // S start, M manage, X shutdown, E<i> enable, D<i> disable, R late Register,
+	//              GP<i> SetGlobalPrepFn(fn i), GS<i> SetGlobalShutdownFn(fn i), GC<i> SetCmdLineOperation(fn i)
+}
+
+// usesGlobalFns: SetGlobalPrepFn / SetGlobalShutdownFn keep the first function for the life of the process (there
+// is no way to clear them), so a worker process that ran such a scenario is not reused.
+func (sc *scenario) usesGlobalFns() bool {
+	for _, op := range sc.Ops {
+		if strings.HasPrefix(op, "GP") || strings.HasPrefix(op, "GS") {
+			return true
+		}
+	}
+	return false
 }
 
 const durUnit = 40 * time.Microsecond
@@ -132,7 +145,7 @@ func parseScenario(line string) (*scenario, error) {
 			if j < 0 {
 				return nil, fmt.Errorf("bad fail")
 			}
-			if mode := x[j+1:]; mode != "p" && errDict[mode] == nil {
+			if mode := x[j+1:]; (mode != "p" || strings.HasPrefix(x, "G.")) && errDict[mode] == nil {
 				return nil, fmt.Errorf("bad failure mode")
 			}
 			sc.Fail[x[:j]] = x[j+1:]
@@ -292,6 +305,24 @@ var errClasses = func() []string {
 	return ks
 }()
 
+// globalFn is global prep function / global shutdown function / command-line operation number id: it records
+// that it ran and what it returned (`glob <which> <id> ok|err`).
+func (w *world) globalFn(which, failKey string, id int) func() error {
+	return func() error {
+		runtime.Gosched()
+		if failKey != "" {
+			if mk := errDict[w.sc.Fail[fmt.Sprintf("%s.%d", failKey, id)]]; mk != nil {
+				if err := mk(); err != nil {
+					w.rec(fmt.Sprintf("glob %s %d err", which, id))
+					return err
+				}
+			}
+		}
+		w.rec(fmt.Sprintf("glob %s %d ok", which, id))
+		return nil
+	}
+}
+
 func modName(i int) string { return fmt.Sprintf("m%02d", i) }
 
 func resStr(err error) string {
@@ -310,6 +341,7 @@ func runScenario(sc *scenario) []string {
 		modules.SetStdErrReporting(false)
 	})
 	modules.VerifResetLifecycle()
+	modules.SetCmdLineOperation(nil)
 	w := &world{sc: sc, runs: make([][3]int, sc.N)}
 	if sc.Mgmt {
 		var fn func(*modules.Module)
@@ -364,6 +396,24 @@ func runScenario(sc *scenario) []string {
 			w.rec("ret shutdown " + resStr(err))
 			obs("obs")
 			shutdownCalled = true
+		case len(op) > 2 && op[0] == 'G' && (op[1] == 'P' || op[1] == 'S' || op[1] == 'C'):
+			id, err := strconv.Atoi(op[2:])
+			if err != nil || id < 0 || id > 9 {
+				w.rec("bad-scenario-op " + op)
+				continue
+			}
+			switch op[1] {
+			case 'P':
+				w.rec(fmt.Sprintf("setg prep %d", id))
+				modules.SetGlobalPrepFn(w.globalFn("prep", "G.p", id))
+			case 'S':
+				w.rec(fmt.Sprintf("setg shutdown %d", id))
+				fn := w.globalFn("shutdown", "", id)
+				modules.SetGlobalShutdownFn(func() { _ = fn() })
+			case 'C':
+				w.rec(fmt.Sprintf("setg cmd %d", id))
+				modules.SetCmdLineOperation(w.globalFn("cmd", "G.c", id))
+			}
 		case op == "R":
 			m := modules.Register("late", nil, nil, nil)
 			if m == nil {
